@@ -1,411 +1,42 @@
-import RSVerif.Lemmas.HandoffLoops
-import RSVerif.Lemmas.HandoffStatus
-import RSVerif.Lemmas.HandoffDecimal
-import RSVerif.Lemmas.HandoffSound
+import RSVerif.Properties.C05Core
+import RSVerif.Properties.C01
 /-
-C05 — The RDB/command-stream hand-off loses and duplicates no byte.
+C05 — The RDB/command-stream hand-off loses and duplicates no byte: the property theorems.
 
-For every reply framing (`Spec.Handoff.Full` / `Cont` / `Bulk`: any number of keep-alive newlines,
-`+FULLRESYNC`/`+CONTINUE` in any letter case, any `n > 0`, any RDB and command bytes) and every chunk
-oracle (`Sched`, see `Model/Handoff.lean`: any list of wishes is a legal oracle, every legal chunking is
-one), about the model of `sendPSyncCmd` → `runIncrementalSync` → `pSyncPipeCopy` and of `dbDumper.dump`:
-
-* `handoff_exact`        pipe ++ still-unread = rdb ++ cmds; the first n pipe bytes are (a prefix of) rdb, the
-                         following ones (a prefix of) cmds; complete once enough reads happened; no abort;
-                         `Iocopy` never asks for more than the RDB bytes still missing.
-* `announced_ids_used`   the run id / offset / size handed on are the reply's; `+CONTINUE` keeps the caller's.
-* `dump_exact`           file = rdb, the reader still holds cmds.
-
-Property theorems only; helper lemmas live in `RSVerif.Lemmas.Handoff*`.
+Sections 0–6 (framing, `sendPSyncCmd` → `runIncrementalSync` → `pSyncPipeCopy`, dump mode, the reconnect loop, ids and
+offsets) are in `Properties/C05Core.lean`, which is kept free of C01's lemma library (its `@[simp]` set changes the
+normal forms those proofs rely on). This file adds the consumer side, which needs C01's loader model.
 -/
 namespace RSVerif.Properties.C05
-open RSVerif RSVerif.Handoff RSVerif.Lemmas.Handoff
+open RSVerif
 
-abbrev Full := Spec.Handoff.Full
-abbrev Cont := Spec.Handoff.Cont
-abbrev Bulk := Spec.Handoff.Bulk
+/-! ### 7. the consumer side of the hand-over
 
-/-! ### 0. facts about the current source tree (regenerated by factgen on every run) -/
+The bytes `pSyncPipeCopy` puts into the pipe are `rdb ++ cmds` (`handoff_exact`); the RDB consumer is the loader pipeline
+of `utils.NewRDBLoader` (C01's model `Rdb.run`: header, records until the EOF opcode, footer), and `DbSyncer.Sync` hands
+the *same* reader to the command parser as soon as that pipeline has ended (its entry channel is closed). For every
+well-formed RDB file the pipeline ends having taken exactly the file: whatever follows the checksum — the command
+stream — is left unread, byte for byte, and it is left unread *whatever those bytes are*. The `handover` cases of the
+correspondence run observe the same two numbers on the real `NewRDBLoader`, under delayed segment boundaries. -/
 
-/-- every copy buffer allocated by the code is non-empty (`Iocopy` aborts on `len(p) == 0`). -/
-theorem code_bufs_pos : 0 < codeBufs.rdb ∧ 0 < codeBufs.pipe ∧ 0 < codeBufs.dump := by decide
+theorem rdb_consumer_exact (pf : Bytes → Bool) (L : Nat) (fv : Int) (ver : Nat) (h1 : 1 ≤ ver) (h9 : ver ≤ 9)
+    (hfv : (ver : Int) ≤ fv) (items : List Spec.Rdb.Item) (hok : Spec.Rdb.itemsOk pf items) (cmds : Bytes) :
+    (Rdb.run pf true L fv
+      (Spec.Rdb.hdr ver ++ Spec.Rdb.ser items ++ [0xFF] ++
+        le64 (Spec.Crc64.crc64 (Spec.Rdb.hdr ver ++ Spec.Rdb.ser items ++ [0xFF])) ++ cmds)).2 = .ok cmds := by
+  rw [Properties.C01.parse_exact pf L fv ver h1 h9 hfv items hok cmds]
 
-/-! ### 1. the invariant of the RDB phase (for every announced size, stream and oracle) -/
-
-/-- `copied ++ remaining = stream` and `|copied| + rdbSize = n` hold when `rdbLoop` stops, wherever it stops. -/
-theorem rdb_phase_invariant (buf : Nat) (closed : Bool) (sched : Sched) (n : Int) (stream : Bytes) :
-    let r := rdbLoop buf closed sched n stream
-    r.out ++ r.rem = stream ∧ (r.out.length : Int) + r.count = n :=
-  rdbLoop_conserve buf closed sched n stream
-
-/-- the same for the command phase: whatever `pSyncPipeCopy` has written plus what is unread is the stream. -/
-theorem copy_phase_invariant (buf : Nat) (closed : Bool) (sched : Sched) (stream : Bytes) :
-    let r := copyLoop buf closed sched stream
-    r.out ++ r.rem = stream ∧ r.count = r.out.length :=
-  ⟨(copyLoop_conserve buf closed sched stream).1, (copyLoop_conserve buf closed sched stream).2.1⟩
-
-private theorem prefix_of_append_eq {a b c d : Bytes} (h : a ++ b = c ++ d) (hl : a.length ≤ c.length) : a <+: c := by
-  have : a = c.take a.length := by
-    have h1 : (a ++ b).take a.length = a := by simp
-    rw [h, List.take_append_of_le_length hl] at h1
-    exact h1.symm
-  rw [this]
-  exact List.take_prefix _ _
-
-/-- `runIncrementalSync` on `rdb ++ cmds` with `rdbSize = |rdb|`. -/
-theorem run_exact (b : Bufs) (hb : 0 < b.rdb ∧ 0 < b.pipe) (closed : Bool) (sched : Sched) (rdb cmds : Bytes) :
-    let run := runIncrementalSync b closed sched (rdb.length : Int) (rdb ++ cmds)
-    run.out ++ run.rem = rdb ++ cmds ∧
-    run.out.take rdb.length <+: rdb ∧ run.out.drop rdb.length <+: cmds ∧
-    run.st ≠ .aborted ∧
-    (∀ q ∈ run.reqs, (q.1 : Int) ≤ q.2 ∧ q.1 ≤ b.rdb) ∧
-    (rdb.length + cmds.length < sched.length →
-      run.out.take rdb.length = rdb ∧ run.out.drop rdb.length = cmds ∧ run.rem = [] ∧
-      run.st = (if closed then .eof else .blocked) ∧ run.count = cmds.length) := by
-  have hlen : ((rdb.length : Nat) : Int) ≤ ((rdb ++ cmds).length : Nat) := by simp; omega
-  have hcons := rdbLoop_conserve b.rdb closed sched rdb.length (rdb ++ cmds)
-  have hok := rdbLoop_ok b.rdb closed hb.1 sched rdb.length (rdb ++ cmds) (by omega) hlen
-  have hdn := rdbLoop_done b.rdb closed hb.1 sched rdb.length (rdb ++ cmds) (by omega) hlen
-  simp only [Int.toNat_natCast] at hcons hok hdn
-  simp only [runIncrementalSync]
-  generalize rdbLoop b.rdb closed sched rdb.length (rdb ++ cmds) = r1 at *
-  obtain ⟨hc1, hc2⟩ := hcons
-  obtain ⟨hst, hdone, hcnt, hreq⟩ := hok
-  have hle : r1.out.length ≤ rdb.length := by omega
-  split
-  · -- the RDB phase completed: the command phase continues on what is left
-    rename_i hd
-    have hz := hdone hd
-    have hl : r1.out.length = rdb.length := by omega
-    obtain ⟨e1, e2⟩ := List.append_inj hc1 hl
-    have hcc := copyLoop_conserve b.pipe closed r1.sched r1.rem
-    simp only [] at hcc
-    obtain ⟨k1, _, k3, _⟩ := hcc
-    rw [e2] at k1
-    refine ⟨?_, ?_, ?_, ?_, hreq, ?_⟩
-    · simp only [e1, e2]; rw [List.append_assoc, k1]
-    · simp [e1]
-    · simp only [e1, e2, List.drop_left']
-      exact ⟨_, k1⟩
-    · rcases k3 with k3 | k3 <;> simp [k3]
-    · intro hs
-      have hdn' := hdn (by omega)
-      have hall := copyLoop_all b.pipe closed hb.2 r1.sched cmds (by omega)
-      simp only [] at hall
-      obtain ⟨a1, a2, a3⟩ := hall
-      have hcnt2 := (copyLoop_conserve b.pipe closed r1.sched cmds).2.1
-      rw [e2]
-      simp [e1, a1, a2, a3, hcnt2]
-  · -- the observation ends inside the RDB phase
-    rename_i hnd
-    have hbl : r1.st = .blocked := by
-      rcases hst with h | h
-      · exact absurd h hnd
-      · exact h
-    have hp := prefix_of_append_eq hc1 hle
-    refine ⟨hc1, ?_, ?_, by simp [hbl], hreq, ?_⟩
-    · rw [List.take_of_length_le hle]; exact hp
-    · rw [List.drop_eq_nil_of_le hle]; exact List.nil_prefix
-    · intro hs
-      exact absurd (hdn (by omega)).1 hnd
-
-/-! ### 2. `handoff_exact` -/
-
-/-- **handoff_exact.** For every well-formed full-resync framing, every request `(inRunid, inOffset)`, open or
-closed source and every chunk oracle: `sendPSyncCmd` starts the copy with the announced size, and the pipe receives
-`rdb ++ cmds` in order — what reached the pipe followed by what is still unread *is* `rdb ++ cmds`, so no byte
-(keep-alive newline, header, boundary byte) is lost, duplicated or moved; the first `n` pipe bytes (the RDB
-consumer's share) are a prefix of `rdb`, the later ones (the command parser's) a prefix of `cmds`, and both are
-complete as soon as more reads than bytes have happened; the code never aborts; `Iocopy` is never asked for
-more than the RDB bytes still missing (`q.2` is `rdbSize`, which by `rdb_phase_invariant` is `n - |copied|`);
-the number of bytes `pSyncPipeCopy` counts as command bytes (`nread`, what the ACK offset advances by) is `|cmds|`. -/
-theorem handoff_exact (b : Bufs) (hb : 0 < b.rdb ∧ 0 < b.pipe) (f : Full) (hf : f.wf = true)
-    (inRunid : Bytes) (inOffset : Int) (closed : Bool) (sched : Sched) :
-    ∃ run, sendPSyncCmd b inRunid inOffset closed sched f.stream
-        = .started true f.id f.offset f.bulk.rdb.length run ∧
-      run.out ++ run.rem = f.bulk.rdb ++ f.bulk.cmds ∧
-      run.out.take f.bulk.rdb.length <+: f.bulk.rdb ∧
-      run.out.drop f.bulk.rdb.length <+: f.bulk.cmds ∧
-      run.st ≠ .aborted ∧
-      (∀ q ∈ run.reqs, (q.1 : Int) ≤ q.2 ∧ q.1 ≤ b.rdb) ∧
-      (f.bulk.rdb.length + f.bulk.cmds.length < sched.length →
-        run.out.take f.bulk.rdb.length = f.bulk.rdb ∧ run.out.drop f.bulk.rdb.length = f.bulk.cmds ∧
-        run.rem = [] ∧ run.st = (if closed then .eof else .blocked) ∧ run.count = f.bulk.cmds.length) := by
-  have hbulk : f.bulk.wf = true := by
-    unfold Spec.Handoff.Full.wf at hf; simp only [Bool.and_eq_true] at hf; exact hf.2
-  unfold Spec.Handoff.Bulk.wf at hbulk
-  simp only [Bool.and_eq_true, beq_iff_eq, decide_eq_true_eq] at hbulk
-  obtain ⟨⟨hden, hpos⟩, hlt⟩ := hbulk
-  have hwait : waitRdbDump f.bulk.stream = .size f.bulk.k f.bulk.rdb.length (f.bulk.rdb ++ f.bulk.cmds) := by
-    have := waitRdbDump_bulk f.bulk.k f.bulk.nTxt (f.bulk.rdb ++ f.bulk.cmds) f.bulk.rdb.length hden hpos hlt
-    simpa [Spec.Handoff.Bulk.stream, DOLLAR, List.append_assoc] using this
-  refine ⟨runIncrementalSync b closed sched (f.bulk.rdb.length : Int) (f.bulk.rdb ++ f.bulk.cmds), ?_, ?_⟩
-  · simp only [sendPSyncCmd, sendPSyncContinue_full f hf, hwait]
-  · exact run_exact b hb closed sched f.bulk.rdb f.bulk.cmds
-
-/-- the same statement for the buffer sizes of the current source tree. -/
-theorem handoff_exact_code (f : Full) (hf : f.wf = true) (inRunid : Bytes) (inOffset : Int) (closed : Bool)
-    (sched : Sched) :
-    ∃ run, sendPSyncCmd codeBufs inRunid inOffset closed sched f.stream
-        = .started true f.id f.offset f.bulk.rdb.length run ∧
-      run.out ++ run.rem = f.bulk.rdb ++ f.bulk.cmds ∧ run.st ≠ .aborted ∧
-      (f.bulk.rdb.length + f.bulk.cmds.length < sched.length →
-        run.out.take f.bulk.rdb.length = f.bulk.rdb ∧ run.out.drop f.bulk.rdb.length = f.bulk.cmds) := by
-  obtain ⟨run, h1, h2, _, _, h5, _, h7⟩ :=
-    handoff_exact codeBufs ⟨code_bufs_pos.1, code_bufs_pos.2.1⟩ f hf inRunid inOffset closed sched
-  exact ⟨run, h1, h2, h5, fun hs => ⟨(h7 hs).1, (h7 hs).2.1⟩⟩
-
-/-- two oracles that both deliver everything deliver the same bytes to both consumers. -/
-theorem handoff_oracle_independent (b : Bufs) (hb : 0 < b.rdb ∧ 0 < b.pipe) (f : Full) (hf : f.wf = true)
-    (inRunid : Bytes) (inOffset : Int) (c₁ c₂ : Bool) (s₁ s₂ : Sched)
-    (h₁ : f.bulk.rdb.length + f.bulk.cmds.length < s₁.length)
-    (h₂ : f.bulk.rdb.length + f.bulk.cmds.length < s₂.length) :
-    ∃ r₁ r₂, sendPSyncCmd b inRunid inOffset c₁ s₁ f.stream = .started true f.id f.offset f.bulk.rdb.length r₁ ∧
-      sendPSyncCmd b inRunid inOffset c₂ s₂ f.stream = .started true f.id f.offset f.bulk.rdb.length r₂ ∧
-      r₁.out = r₂.out := by
-  obtain ⟨r₁, e₁, _, _, _, _, _, k₁⟩ := handoff_exact b hb f hf inRunid inOffset c₁ s₁
-  obtain ⟨r₂, e₂, _, _, _, _, _, k₂⟩ := handoff_exact b hb f hf inRunid inOffset c₂ s₂
-  refine ⟨r₁, r₂, e₁, e₂, ?_⟩
-  rw [← List.take_append_drop f.bulk.rdb.length r₁.out, ← List.take_append_drop f.bulk.rdb.length r₂.out,
-    (k₁ h₁).1, (k₁ h₁).2.1, (k₂ h₂).1, (k₂ h₂).2.1]
-
-/-! ### 3. `announced_ids_used` -/
-
-/-- **announced_ids_used (full resync).** The PSYNC request carries `inOffset + 1` (or `-1` for "no history");
-what `sendPSyncCmd` returns and stores in `ds.sourceOffset` are the run id, offset and size the source announced,
-whatever was requested. -/
-theorem announced_ids_used (b : Bufs) (f : Full) (hf : f.wf = true) (inRunid : Bytes) (inOffset : Int)
-    (closed : Bool) (sched : Sched) :
-    psyncOffset inOffset = Spec.Handoff.requestOffset inOffset ∧
-    Spec.Handoff.denoteInt f.offTxt = some f.offset ∧
-    Spec.Handoff.denote f.bulk.nTxt = some f.bulk.rdb.length ∧
-    ∃ run, sendPSyncCmd b inRunid inOffset closed sched f.stream
-      = .started true f.id f.offset f.bulk.rdb.length run := by
-  have hf' := hf
-  unfold Spec.Handoff.Full.wf at hf'
-  simp only [Bool.and_eq_true] at hf'
-  obtain ⟨⟨⟨_, _⟩, hoff⟩, hbulk⟩ := hf'
-  unfold Spec.Handoff.Bulk.wf at hbulk
-  simp only [Bool.and_eq_true, beq_iff_eq, decide_eq_true_eq] at hbulk
-  obtain ⟨⟨hden, hpos⟩, hlt⟩ := hbulk
-  have hwait : waitRdbDump f.bulk.stream = .size f.bulk.k f.bulk.rdb.length (f.bulk.rdb ++ f.bulk.cmds) := by
-    have := waitRdbDump_bulk f.bulk.k f.bulk.nTxt (f.bulk.rdb ++ f.bulk.cmds) f.bulk.rdb.length hden hpos hlt
-    simpa [Spec.Handoff.Bulk.stream, DOLLAR, List.append_assoc] using this
-  refine ⟨?_, ?_, hden, runIncrementalSync b closed sched (f.bulk.rdb.length : Int) (f.bulk.rdb ++ f.bulk.cmds), ?_⟩
-  · unfold psyncOffset Spec.Handoff.requestOffset; split <;> simp_all
-  · cases h : Spec.Handoff.denoteInt f.offTxt with
-    | none => rw [h] at hoff; cases hoff
-    | some v => simp [Spec.Handoff.Full.offset, h]
-  · simp only [sendPSyncCmd, sendPSyncContinue_full f hf, hwait]
-
-/-- **announced_ids_used (`+CONTINUE`, any letter case).** The caller's run id and offset stay in force
-(requested `inOffset + 1`, stored `inOffset`), no RDB is expected (`nsize = 0`), and every byte after the reply
-line goes to the command parser, in order. -/
-theorem announced_ids_used_continue (b : Bufs) (hb : 0 < b.pipe) (f : Cont) (hf : f.wf = true) (inRunid : Bytes)
-    (inOffset : Int) (hoff : inOffset ≠ -1) (closed : Bool) (sched : Sched) :
-    psyncOffset inOffset = inOffset + 1 ∧
-    ∃ run, sendPSyncCmd b inRunid inOffset closed sched f.stream = .started false inRunid inOffset 0 run ∧
-      run.out ++ run.rem = f.cmds ∧ run.st ≠ .aborted ∧ run.reqs = [] ∧
-      (f.cmds.length < sched.length → run.out = f.cmds ∧ run.rem = []) := by
-  have hp : psyncOffset inOffset = inOffset + 1 := by unfold psyncOffset; simp [hoff]
-  refine ⟨hp, runIncrementalSync b closed sched 0 f.cmds, ?_, ?_⟩
-  · simp only [sendPSyncCmd, sendPSyncContinue_cont f hf, hp]
-    congr 1; omega
-  · have hr : ∀ s, rdbLoop b.rdb closed s 0 f.cmds = ⟨[], f.cmds, s, [], 0, .done⟩ := by
-      intro s; cases s <;> simp [rdbLoop]
-    simp only [runIncrementalSync, hr]
-    have hcc := copyLoop_conserve b.pipe closed sched f.cmds
-    simp only [] at hcc
-    obtain ⟨k1, _, k3, k4⟩ := hcc
-    refine ⟨by simpa using k1, ?_, by simp, ?_⟩
-    · rcases k3 with k3 | k3 <;> simp [k3]
-    · intro hs
-      have hall := copyLoop_all b.pipe closed hb sched f.cmds hs
-      simp only [] at hall
-      simp [hall.1, hall.2.1]
-
-/-- as coded, `+CONTINUE` after a request without history (`inOffset = -1`, which no master answers that way)
-leaves `-2`: outside the property's framings, recorded here so that the rule above is seen to be sharp. -/
-theorem continue_without_history (b : Bufs) (f : Cont) (hf : f.wf = true) (inRunid : Bytes) (closed : Bool)
-    (sched : Sched) :
-    ∃ run, sendPSyncCmd b inRunid (-1) closed sched f.stream = .started false inRunid (-2) 0 run := by
-  refine ⟨runIncrementalSync b closed sched 0 f.cmds, ?_⟩
-  simp only [sendPSyncCmd, sendPSyncContinue_cont f hf]
-  rfl
-
-/-! ### 3b. the reconnect loop (repaired by fixes/C05-reconnect-fullresync.patch) -/
-
-/-- after a reconnect answered by `+CONTINUE` (any letter case, any keep-alive newlines) exactly the bytes after the
-reply line go on to the command parser, in order. -/
-theorem reconnect_continue_exact (b : Bufs) (hb : 0 < b.pipe) (f : Cont) (hf : f.wf = true) (runId : Bytes)
-    (sourceOffset : Int) (closed : Bool) (sched : Sched) :
-    ∃ run, reconnect b runId sourceOffset closed sched f.stream = .copying run ∧
-      run.out ++ run.rem = f.cmds ∧ run.st ≠ .aborted ∧
-      (f.cmds.length < sched.length → run.out = f.cmds ∧ run.rem = []) := by
-  refine ⟨copyLoop b.pipe closed sched f.cmds, by simp only [reconnect, sendPSyncContinue_cont f hf], ?_⟩
-  have hcc := copyLoop_conserve b.pipe closed sched f.cmds
-  simp only [] at hcc
-  obtain ⟨k1, _, k3, _⟩ := hcc
-  refine ⟨k1, ?_, ?_⟩
-  · rcases k3 with k3 | k3 <;> simp [k3]
-  · intro hs
-    have hall := copyLoop_all b.pipe closed hb sched f.cmds hs
-    simp only [] at hall
-    exact ⟨hall.2.1, hall.1⟩
-
-/-- after a reconnect answered by `+FULLRESYNC …` the repaired code stops: no byte of the `$<n>` header or of the RDB
-is ever handed to the command parser. -/
-theorem reconnect_fullresync_aborts (b : Bufs) (f : Full) (hf : f.wf = true) (runId : Bytes) (sourceOffset : Int)
-    (closed : Bool) (sched : Sched) :
-    reconnect b runId sourceOffset closed sched f.stream = .abort := by
-  simp only [reconnect, sendPSyncContinue_full f hf]
-
-/-- the pinned tree: `+FULLRESYNC newid 500\r\n$5\r\nHELLO` followed by the command `XYZ` on a reconnect — the header
-and the RDB reach the command parser (replayed on the real code: `reconn` cases of the harness). -/
-theorem counterexample_reconnect_fullresync_pinned :
-    reconnectPinned codeBufs [63] 100 true [64, 64]
-        ([43, 70, 85, 76, 76, 82, 69, 83, 89, 78, 67, 32, 110, 32, 53, 13, 10] ++ [36, 53, 13, 10] ++ [72, 69, 76, 76, 79] ++ [88, 89, 90])
-      = .copying ⟨[36, 53, 13, 10, 72, 69, 76, 76, 79, 88, 89, 90], [], [], [], 12, .eof⟩ := by
-  decide
-
-/-! ### 4. `dump_exact` -/
-
-/-- **dump_exact.** For every SYNC answer `LF^k $n CRLF rdb cmds`, open or closed source and every chunk oracle:
-`dump` learns `n`; what is in the file followed by what the reader has not consumed is `rdb ++ cmds`; the file is
-a prefix of `rdb` at every moment; when `dumpRDBFile` returns the file *is* `rdb` and the reader still holds
-exactly `cmds`; it returns after at most `n` reads; it never aborts and never asks for more than is missing. -/
-theorem dump_exact (b : Bufs) (hb : 0 < b.dump) (f : Bulk) (hf : f.wf = true) (closed : Bool) (sched : Sched) :
-    ∃ run, dump b closed sched f.stream = .dumped f.rdb.length run ∧
-      run.out ++ run.rem = f.rdb ++ f.cmds ∧
-      run.out <+: f.rdb ∧
-      run.st ≠ .aborted ∧
-      (∀ q ∈ run.reqs, (q.1 : Int) ≤ q.2 ∧ q.1 ≤ b.dump) ∧
-      (run.st = .done → run.out = f.rdb ∧ run.rem = f.cmds) ∧
-      (f.rdb.length ≤ sched.length → run.st = .done) := by
-  unfold Spec.Handoff.Bulk.wf at hf
-  simp only [Bool.and_eq_true, beq_iff_eq, decide_eq_true_eq] at hf
-  obtain ⟨⟨hden, hpos⟩, hlt⟩ := hf
-  have hwait : waitRdbDump f.stream = .size f.k f.rdb.length (f.rdb ++ f.cmds) := by
-    have := waitRdbDump_bulk f.k f.nTxt (f.rdb ++ f.cmds) f.rdb.length hden hpos hlt
-    simpa [Spec.Handoff.Bulk.stream, DOLLAR, List.append_assoc] using this
-  refine ⟨dumpLoop b.dump closed (f.rdb.length : Int) sched 0 (f.rdb ++ f.cmds), by simp only [dump, hwait], ?_⟩
-  rw [dumpLoop_eq]
-  have hlen : ((f.rdb.length : Nat) : Int) - 0 ≤ ((f.rdb ++ f.cmds).length : Nat) := by simp; omega
-  have hcons := rdbLoop_conserve b.dump closed sched (f.rdb.length - 0) (f.rdb ++ f.cmds)
-  have hok := rdbLoop_ok b.dump closed hb sched (f.rdb.length - 0) (f.rdb ++ f.cmds) (by omega) hlen
-  have hdn := rdbLoop_done b.dump closed hb sched (f.rdb.length - 0) (f.rdb ++ f.cmds) (by omega) hlen
-  simp only [Int.sub_zero, Int.toNat_natCast] at hcons hok hdn ⊢
-  generalize rdbLoop b.dump closed sched f.rdb.length (f.rdb ++ f.cmds) = r1 at *
-  obtain ⟨hc1, hc2⟩ := hcons
-  obtain ⟨hst, hdone, hcnt, hreq⟩ := hok
-  have hle : r1.out.length ≤ f.rdb.length := by omega
-  refine ⟨hc1, prefix_of_append_eq hc1 hle, ?_, hreq, ?_, ?_⟩
-  · rcases hst with h | h <;> simp [h]
-  · intro hd
-    have hl : r1.out.length = f.rdb.length := by
-      have := hdone hd; omega
-    exact List.append_inj hc1 hl
-  · intro hs
-    exact (hdn hs).1
-
-theorem dump_exact_code (f : Bulk) (hf : f.wf = true) (closed : Bool) (sched : Sched)
-    (hs : f.rdb.length ≤ sched.length) :
-    ∃ run, dump codeBufs closed sched f.stream = .dumped f.rdb.length run ∧ run.out = f.rdb ∧ run.rem = f.cmds := by
-  obtain ⟨run, h1, _, _, _, _, h6, h7⟩ := dump_exact codeBufs code_bufs_pos.2.2 f hf closed sched
-  exact ⟨run, h1, h6 (h7 hs)⟩
-
-/-! ### 4b. every stream, well-formed or not: whatever is accepted, nothing is invented, dropped or moved -/
-
-/-- the chunk oracle is exactly "a non-empty prefix of at most the requested size": every wish yields a legal length,
-and every legal length is obtained from some wish (itself). -/
-theorem oracle_legal (wish req avail : Nat) (hr : 0 < req) (ha : 0 < avail) :
-    1 ≤ chunkLen wish req avail ∧ chunkLen wish req avail ≤ req ∧ chunkLen wish req avail ≤ avail :=
-  ⟨chunkLen_pos wish req avail hr ha, chunkLen_le_req wish req avail, chunkLen_le_avail wish req avail⟩
-
-theorem oracle_complete (l req avail : Nat) (h1 : 1 ≤ l) (h2 : l ≤ req) (h3 : l ≤ avail) : chunkLen l req avail = l := by
-  unfold chunkLen; omega
-
-/-- For *every* byte stream, request, oracle: if `sendPSyncCmd` starts the copy at all, then what reached the pipe
-followed by what is unread is a suffix of the stream (the consumed part being the reply line and, for a full resync,
-the keep-alives and the header). No input makes the code duplicate, drop or reorder a byte behind the header. -/
-theorem handoff_conserves_any (b : Bufs) (inRunid : Bytes) (inOffset : Int) (closed : Bool) (sched : Sched)
-    (stream : Bytes) (isFull : Bool) (id : Bytes) (off : Int) (n : Nat) (run : Copy)
-    (h : sendPSyncCmd b inRunid inOffset closed sched stream = .started isFull id off n run) :
-    ∃ consumed, stream = consumed ++ (run.out ++ run.rem) := by
-  unfold sendPSyncCmd at h
-  split at h
-  · cases h
-  · split at h <;> cases h
-  · cases h
-  · rename_i runid offset rest hrep
-    simp only [Psync.started.injEq] at h
-    obtain ⟨_, _, _, _, rfl⟩ := h
-    obtain ⟨consumed, hc⟩ := sendPSyncContinue_suffix inRunid inOffset stream false runid offset rest (by simpa using hrep)
-    exact ⟨consumed, by rw [runIncrementalSync_conserve]; exact hc⟩
-  · rename_i runid offset rest hrep
-    split at h
-    · rename_i k m rest' hw
-      simp only [Psync.started.injEq] at h
-      obtain ⟨_, _, _, _, rfl⟩ := h
-      obtain ⟨consumed, hc⟩ := sendPSyncContinue_suffix inRunid inOffset stream true runid offset rest (by simpa using hrep)
-      obtain ⟨hdr, hs, _, _⟩ := waitRdbDump_sound rest k m rest' hw
-      refine ⟨consumed ++ (Spec.Handoff.newlines k ++ hdr), ?_⟩
-      rw [runIncrementalSync_conserve, hc, hs]; simp
-    · cases h
-    · split at h <;> cases h
-
-/-- For *every* byte stream: if `dump` gets as far as writing, the stream is `k` keep-alive newlines, one header line
-that parses to the announced `n > 0`, then exactly file ++ unread. -/
-theorem dump_conserves_any (b : Bufs) (closed : Bool) (sched : Sched) (stream : Bytes) (n : Nat) (run : Copy)
-    (h : dump b closed sched stream = .dumped n run) :
-    ∃ k hdr, stream = Spec.Handoff.newlines k ++ hdr ++ (run.out ++ run.rem) ∧ parseHeader hdr = some n ∧ 0 < n := by
-  unfold dump at h
-  split at h
-  · rename_i k m rest hw
-    simp only [Dump.dumped.injEq] at h
-    obtain ⟨rfl, rfl⟩ := h
-    obtain ⟨hdr, hs, hp, hpos⟩ := waitRdbDump_sound stream k m rest hw
-    refine ⟨k, hdr, ?_, hp, hpos⟩
-    rw [dumpLoop_eq]
-    have := (rdbLoop_conserve b.dump closed sched ((m : Int) - 0) rest).1
-    simp only [] at this ⊢
-    rw [this, hs]
-  · cases h
-  · split at h <;> cases h
-
-/-! ### 5. the canonical numeral is accepted (so "any n > 0" really is any n) -/
-
-theorem canonical_size_wf (k : Nat) (rdb cmds : Bytes) (hpos : 0 < rdb.length) (hlt : rdb.length < 2 ^ 63) :
-    (Spec.Handoff.Bulk.mk k (Spec.Handoff.decimal rdb.length) rdb cmds).wf = true := by
-  simp [Spec.Handoff.Bulk.wf, denote_decimal, hpos, hlt]
-
-/-! ### 6. non-vacuity: concrete framings satisfy the hypotheses, and the model really runs on them -/
-
-/-- `\n +FullReSync 5a…f 1234 \r\n \n\n $5\r\n hello  *1\r\n` -/
-def exFull : Full :=
-  { j := 1, word := [70, 117, 108, 108, 82, 101, 83, 121, 110, 99], id := [53, 97, 102], offTxt := [49, 50, 51, 52],
-    bulk := { k := 2, nTxt := [53], rdb := [104, 101, 108, 108, 111], cmds := [42, 49, 13, 10] } }
-
-example : exFull.wf = true := by decide
-example : (Spec.Handoff.Cont.mk 2 [99, 79, 110, 84, 105, 78, 117, 69] [1, 2, 3]).wf = true := by decide
-
-/-- byte-wise delivery, a read straddling nothing, then EOF: the consumer sees `hello`, the parser `*1\r\n`. -/
-example : sendPSyncCmd codeBufs [63] (-1) true [1, 1, 1, 1, 1, 9, 9] exFull.stream
-    = .started true [53, 97, 102] 1234 5
-        ⟨[104, 101, 108, 108, 111, 42, 49, 13, 10], [], [], [(5, 5), (4, 4), (3, 3), (2, 2), (1, 1)], 4, .eof⟩ := by
-  decide
-
-/-- one big segment: the first `Iocopy` is cut at the boundary by `max`. -/
-example : sendPSyncCmd codeBufs [63] (-1) false [100000, 100000] exFull.stream
-    = .started true [53, 97, 102] 1234 5
-        ⟨[104, 101, 108, 108, 111, 42, 49, 13, 10], [], [], [(5, 5)], 4, .blocked⟩ := by
-  decide
-
-/-- `$0` (and anything that is not `$<n>` with `n > 0`) makes `waitRdbDump` abort: `n > 0` is needed. -/
-theorem zero_size_aborts : waitRdbDump [36, 48, 13, 10] = .abort 0 := by decide
-
-/-- a keep-alive newline is only skipped before the `$`; a `\n` that starts the command stream is data. -/
-example : dump codeBufs true [9, 9] [10, 36, 49, 13, 10, 120, 10, 10]
-    = .dumped 1 ⟨[120], [10, 10], [9], [(1, 1)], 1, .done⟩ := by decide
+/-- the number of bytes the consumer has taken when it stops is the length of the file, for any command bytes -/
+theorem rdb_consumer_takes_n (pf : Bytes → Bool) (L : Nat) (fv : Int) (ver : Nat) (h1 : 1 ≤ ver) (h9 : ver ≤ 9)
+    (hfv : (ver : Int) ≤ fv) (items : List Spec.Rdb.Item) (hok : Spec.Rdb.itemsOk pf items) (cmds : Bytes) :
+    let file := Spec.Rdb.hdr ver ++ Spec.Rdb.ser items ++ [0xFF] ++
+      le64 (Spec.Crc64.crc64 (Spec.Rdb.hdr ver ++ Spec.Rdb.ser items ++ [0xFF]))
+    ∀ rest, (Rdb.run pf true L fv (file ++ cmds)).2 = .ok rest → (file ++ cmds).length - rest.length = file.length := by
+  intro file rest h
+  have := rdb_consumer_exact pf L fv ver h1 h9 hfv items hok cmds
+  simp only [file] at h
+  rw [this] at h
+  cases h
+  simp
 
 end RSVerif.Properties.C05
